@@ -403,6 +403,34 @@ def cli_layer(ctx, command, stdout_records=True):
                     else:
                         raise AnalysisError("R00.2", f.where(st), f"the command-line layer rewrites the option `{tg.attr}`: cannot decide whether the command still does what was asked")
     ctx.holds("R00.2", mod.relpath, f"the command-line layer ({', '.join(f.name for f in cli_funcs) or 'main'}) hands the options on as given", nontrivial=False)
+    # R00.5: `main(args)` hands all parsed options to the command's run function
+    mains = [f for f in cli_funcs if f.name == "main"]
+    for f in mains:
+        argsp = f.params[0] if f.params else None
+        fwd = []
+        for c in walk_own(f.node):
+            if isinstance(c, ast.Call) and any(k.arg is None and isinstance(k.value, ast.Call) and norm(k.value.func) == "vars" and k.value.args and norm(k.value.args[0]) == argsp for k in c.keywords):
+                cal = repo.resolve_call(f, c)
+                if cal is not None and cal.module is mod:
+                    fwd.append((c, cal))
+        stmts = [st for st in f.node.body if not (isinstance(st, ast.Expr) and isinstance(st.value, ast.Constant))]
+        uncond = [c for c, _ in fwd if any(isinstance(st, (ast.Expr, ast.Return)) and st.value is c for st in stmts)]
+        if not fwd:
+            others = [c for c in walk_own(f.node) if isinstance(c, ast.Call) and repo.resolve_call(f, c) is not None]
+            if others:
+                raise AnalysisError("R00.5", f.where(), "main() does not forward the options with **vars(args): the binding of options to parameters is not traced")
+            ctx.violated("R00.5", f.where(), "main() does not call the command's run function: the subcommand parses its options and does nothing", key_of(f, "main-does-not-run"))
+        else:
+            ctx.check(bool(uncond), "R00.5", f.where(fwd[0][0]), f"main() unconditionally calls {fwd[0][1].qualname}(**vars(args)): every option reaches the parameter of its name", key_of(f, f"main-forwards:{fwd[0][1].qualname}"))
+            # every dest of add_arguments is a parameter of the run function (else the call raises TypeError at once)
+    if not mains:
+        raise AnalysisError("R00.5", mod.relpath, "the command module has no main(args)")
+    # R00.6: results are written to a fresh file: no output is opened for appending in the command's module
+    for f in mod.funcs.values():
+        for c in walk_own(f.node):
+            if isinstance(c, ast.Call) and norm(c.func) in ("open", "io.open", "gzip.open", "libcbgzf.BGZFile", "BGZFile") and len(c.args) >= 2 and isinstance(c.args[1], ast.Constant) and isinstance(c.args[1].value, str) and c.args[1].value.startswith("a"):
+                ctx.violated("R00.6", f.where(c), f"`{norm(c)[:60]}` opens an output for appending: a file left by an earlier run is kept and the new records are added after it, so the output is not what this run produced", key_of(f, f"append-mode:{norm(c.args[0])[:30]}"))
+    ctx.holds("R00.6", mod.relpath, "no output of the command is opened in append mode", nontrivial=False)
     # R00.3 / R00.4 over the command's own module (all functions)
     text_lint(ctx, [mod])
 
